@@ -17,9 +17,14 @@ ClaimItems == {[client |-> c, id |-> i, data |-> d, size |-> MinSize] : c \in (I
                  d \in (IF Rich THEN Datas ELSE {"dA"})}
 SectorGroups == {<<[sector |-> 1, expiry |-> epoch + x, claims |-> <<k>>]>> : k \in ClaimItems, x \in {MinTerm, MinTerm + 2, MinTerm + 9}}
          \cup {<<[sector |-> 1, expiry |-> epoch + MinTerm, claims |-> <<k1, k2>>]>> : k1, k2 \in {q \in ClaimItems : q.data = "dA" /\ q.client = "c1"}}
-         \cup (IF Rich THEN {<<[sector |-> 1, expiry |-> epoch + MinTerm, claims |-> <<k1>>],
-                               [sector |-> 2, expiry |-> epoch + MinTerm, claims |-> <<k2>>]>> :
-                                k1, k2 \in {q \in ClaimItems : q.data = "dA" /\ q.client = "c1"}} ELSE {})
+         \* two sector groups in one call (both may succeed: the burn must cover the sum), also with the same
+         \* allocation in both, and a group without claims after one with a claim
+         \cup {<<[sector |-> 1, expiry |-> epoch + MinTerm, claims |-> <<k1>>],
+                 [sector |-> 2, expiry |-> epoch + MinTerm, claims |-> <<k2>>]>> :
+                    k1, k2 \in {q \in ClaimItems : q.data = "dA" /\ q.client = "c1" /\ (Rich \/ q.id <= 2)}}
+         \cup {<<[sector |-> 1, expiry |-> epoch + MinTerm, claims |-> <<k1>>],
+                 [sector |-> 2, expiry |-> epoch + MinTerm, claims |-> <<>>]>> :
+                    k1 \in {q \in ClaimItems : q.data = "dA" /\ q.client = "c1" /\ q.id = 1}}
 IdSeqs == {<<>>} \cup {<<i>> : i \in Ids} \cup {<<p[1], p[2]>> : p \in {q \in Ids \X Ids : q[1] < q[2]}}
 Calls ==
      {Blank @@ [a |-> "AddVerifier", c |-> c, v |-> v, amt |-> am] : c \in {Root, "c1"}, v \in (IF Rich THEN Verifs \cup {"c1"} ELSE {"v1", "c1"}), am \in (IF Rich THEN {MinSize - 1, 2 * MinSize} ELSE {2 * MinSize})}
